@@ -19,9 +19,9 @@ import RTV.Gen.CharTables
   phone.extract <cps>                        -> start:len:textcps:data;…   (BasePhoneNumberExtractor.extract, English)
   spec.url <cps>                             -> typecps:start:end:textcps:valuecps;…   (recognize_url)
   spec.seq <hashtag|mention|email|url|urlzh> <cps>  -> typecps:start:end:textcps:keycps=valuecps,…;…  (whole ModelResult)
-  spec.ip <en|zh> <cps>                      -> the same   (recognize_ip_address)
+  spec.ip <en|zh> <typed|score> <cps>        -> the same   (recognize_ip_address; resolution with `type` / with the pre-fix `score`)
   spec.guid <cps>                            -> the same   (recognize_guid)
-  spec.bool <cps>                            -> the same | err:Other   (recognize_boolean; True/False, 0.0 as text)
+  spec.bool <fixed|pscore0> <cps>            -> the same | err:Other   (recognize_boolean; True/False as text, the score as `#num/den`)
 -/
 namespace RTV.Drv
 open RTV.Py RTV.Re RTV.Seq
@@ -112,10 +112,13 @@ def hSpecUrl : Handler
       s!"{showCps t}:{a}:{b}:{showCps x}:{showCps v}")
   | _ => "bad-op"
 
-/-- `typecps:start:end:textcps:keycps=valuecps,keycps=valuecps` -/
+/-- `typecps:start:end:textcps:keycps=valuecps,keycps=valuecps`; a float value as the exact fraction `#num/den` -/
 def showEnt (e : SpecEnt) : String :=
   s!"{showCps e.typeName}:{e.start}:{e.stop}:{showCps e.text}:" ++
-    ",".intercalate (e.res.map fun (k, v) => s!"{showCps k}={showCps v}")
+    ",".intercalate (e.res.map fun (k, v) =>
+      match v with
+      | .text t => s!"{showCps k}={showCps t}"
+      | .frac n d => s!"{showCps k}=#{n}/{d}")
 def showEnts (l : List SpecEnt) : String := ";".intercalate (l.map showEnt)
 
 def hSpecSeq : Handler
@@ -130,7 +133,7 @@ def hSpecSeq : Handler
   | _ => "bad-op"
 
 def hSpecIp : Handler
-  | [w, s] => showEnts (ipModelRun genSeqEnv (w == "zh") (parseCps s))
+  | [w, v, s] => showEnts (ipModelRun genSeqEnv (w == "zh") (v == "typed") (parseCps s))
   | _ => "bad-op"
 
 def hSpecGuid : Handler
@@ -138,7 +141,7 @@ def hSpecGuid : Handler
   | _ => "bad-op"
 
 def hSpecBool : Handler
-  | [s] => match boolModelRun RTV.Choice.genEnv (parseCps s) with
+  | [v, s] => match boolModelRun { RTV.Choice.genEnv with parserKeepsScore := v != "pscore0" } (parseCps s) with
     | some rs => showEnts rs
     | none => "err:Other"
   | _ => "bad-op"
